@@ -189,11 +189,39 @@ class Models:
             return one(m.binop(mm.group(1), d(argv[0]), d(argv[1])))
         if re.match(r'<&?%s as Neg>::neg$' % FLOAT_TY, c):
             return one(('f', T.mk('fneg', d(argv[0])[1])))
-        mm = re.match(r'<&?&?\w+ as (?:PartialOrd|PartialEq)(?:<&?&?\w+>)?>::(lt|le|gt|ge|eq|ne)$', c)
+        mm = re.match(r'<&?&?[\w:]+(?:<[\w:, ]*>)? as (?:PartialOrd|PartialEq)(?:<&?&?[\w:]+(?:<[\w:, ]*>)?>)?>::(lt|le|gt|ge|eq|ne)$', c)
         if mm:
             a, b = d(argv[0]), d(argv[1])
             if a[0] in ('f', 'i') and b[0] == a[0]:
                 return one(m.binop(mm.group(1).capitalize(), a, b))
+            # == / != on crate-local ADT values (possibly through && layers, as in a match guard `r == s`): structural when the
+            # type's PartialEq is derived (read from the source line the impl points at); a hand-written eq body is inlined
+            if mm.group(1) in ('eq', 'ne') and a[0] == 'adt' and b[0] == 'adt' and a[1] == b[1] and isinstance(a[2], int) and isinstance(b[2], int):
+                cands = [f for f in m.byname.get('eq', []) if len(f.args) == 2 and (m.impl_self_type(f) == a[1] or tyname(f.args[0][1]) == a[1])]
+                def derived(f):
+                    k = re.search(r'<impl at (src/[\w/]+\.rs):(\d+):', f.name)
+                    if not k:
+                        return False
+                    m.impl_kind(f)
+                    lines = m.srccache.get(k.group(1), [])
+                    ln = int(k.group(2)) - 1
+                    return ln < len(lines) and 'derive' in lines[ln] and 'PartialEq' in lines[ln]
+                if len(cands) == 1 and derived(cands[0]):
+                    def struct_eq(x, y):
+                        if x[0] == 'f' and y[0] == 'f':
+                            return T.mk('feq', x[1], y[1])
+                        if x[0] == 'i' and y[0] == 'i':
+                            return T.simplify_bool(T.mk('ieq', x[1], y[1]))
+                        if x[0] == 'b' and y[0] == 'b':
+                            return T.mk('beq', x[1], y[1])
+                        if x[0] == 'adt' and y[0] == 'adt' and isinstance(x[2], int) and isinstance(y[2], int):
+                            if x[1] != y[1] or x[2] != y[2] or len(x[3]) != len(y[3]):
+                                return T.bconst(False)
+                            return T.and_(*[struct_eq(d(p), d(q)) for p, q in zip(x[3], y[3])]) if x[3] else T.bconst(True)
+                        raise Stuck('structural == on %s' % (x[0],))
+                    self.note('derived PartialEq on %s: structural equality (same variant and field-wise ==)' % a[1])
+                    e = struct_eq(a, b)
+                    return one(('b', e if mm.group(1) == 'eq' else T.not_(e)))
         mm = re.match(r'<&?%s as (?:Ord)>::(min|max)$' % INT_TY, c) or re.match(r'(?:std|core)::cmp::(min|max)$', c) or re.match(r'(?:core::num::<impl usize>|usize)::(min|max)$', c)
         if mm and d(argv[0])[0] == 'i':
             self.note('integer min/max')
